@@ -1,4 +1,4 @@
-"""KNOWN FINDING C10-invalid-service-sample: a negative service sample is accepted silently."""
+"""C10 (D30, formerly listed as finding C10-invalid-service-sample; fixed by /repo ec61877): a negative service sample is accepted silently."""
 import ciw
 class Neg(ciw.dists.Distribution):
     def sample(self, t=None, ind=None):
